@@ -1,7 +1,7 @@
 ---------------------------- MODULE ConfigKeys ----------------------------
 (* The key alphabet shared by the bounded model, the script generator, the   *)
 (* driver (harness/c19.py) and the trace specification.                      *)
-CanonDef == [k \in {"p-q", "p_q", "r", "m", "x-y", "x_y", "z", "n", "w-v", "w_v", "device", "q", "zz"} |->
-               CASE k = "p-q" -> "p_q" [] k = "x-y" -> "x_y" [] k = "w-v" -> "w_v" [] OTHER -> k]
+CanonDef == [k \in {"p-q", "p_q", "r", "m", "x-y", "x_y", "z", "n", "w-v", "w_v", "device", "q", "zz", "g-h", "g_h"} |->
+               CASE k = "p-q" -> "p_q" [] k = "x-y" -> "x_y" [] k = "w-v" -> "w_v" [] k = "g-h" -> "g_h" [] OTHER -> k]
 LeavesDef == {"v1", "v2", "v3", "cpu"}
 =============================================================================
